@@ -628,8 +628,19 @@ class ExprMixin:
             if r is not _MISSING:
                 return r
         sym = (SV, SInt, SBool, SSeq, SDict, Obj, SCls, SText)
-        if not isinstance(a, sym) and not isinstance(b, sym):
+
+        def has_sym(x):
+            if isinstance(x, sym):
+                return True
+            if isinstance(x, (tuple, list)):
+                return any(has_sym(e) for e in x)
+            return False
+        if not has_sym(a) and not has_sym(b):
             return (a is b) if identity else (a == b)
+        if identity and not isinstance(a, sym) and not isinstance(b, sym):
+            return a is b                       # two host containers: identity is object identity
+        if isinstance(a, (tuple, list)) and isinstance(b, (tuple, list)) and isinstance(a, tuple) != isinstance(b, tuple):
+            return False                        # a tuple never equals a list
         if isinstance(a, SCls) or isinstance(b, SCls):
             return SBool(self.cls_term(a) == self.cls_term(b))
         if isinstance(a, (SInt,)) or isinstance(b, (SInt,)):
